@@ -10,17 +10,25 @@ use std::sync::Mutex;
 /// the positional twin of the child space: tuple structs all the way down, indices as paths
 fn child_pos_opts(tier: &str) -> (FlatOpts, Option<usize>) {
     if tier == "quick" {
-        (FlatOpts { max_members: 3, max_ghosts: 1, max_depth: 2, positional: true }, Some(6))
+        (FlatOpts { max_members: 3, max_ghosts: 1, max_depth: 2, positional: true, ..crate::sem_flat::FlatOpts::DEF }, Some(6))
     } else {
-        (FlatOpts { max_members: 4, max_ghosts: 1, max_depth: 2, positional: true }, Some(6))
+        (FlatOpts { max_members: 4, max_ghosts: 1, max_depth: 2, positional: true, ..crate::sem_flat::FlatOpts::DEF }, Some(6))
     }
+}
+
+/// the deepest layout of the path universe as a FIXED node set (p, p.q, p.qr, p.q.r - choosing it costs 4 deviations
+/// in `child` before any member is placed): plain members, every assignment of 2-3 (thorough: 2-4) members to the five
+/// structs in every order, exhaustively (seed C03-08: members of p.q / a sibling / p.q.r interleaved)
+fn child_deep_opts(tier: &str) -> FlatOpts {
+    const DEEP: [&str; 4] = ["p", "p.q", "p.qr", "p.q.r"];
+    FlatOpts { max_members: if tier == "quick" { 3 } else { 4 }, max_ghosts: 0, max_depth: 3, fixed_nodes: Some(&DEEP), plain_only: true, ..FlatOpts::DEF }
 }
 
 fn child_opts(tier: &str) -> (FlatOpts, Option<usize>) {
     if tier == "quick" {
-        (FlatOpts { max_members: 3, max_ghosts: 1, max_depth: 2, positional: false }, Some(5))
+        (FlatOpts { max_members: 3, max_ghosts: 1, max_depth: 2, positional: false, ..crate::sem_flat::FlatOpts::DEF }, Some(5))
     } else {
-        (FlatOpts { max_members: 4, max_ghosts: 1, max_depth: 3, positional: false }, Some(7))
+        (FlatOpts { max_members: 4, max_ghosts: 1, max_depth: 3, positional: false, ..crate::sem_flat::FlatOpts::DEF }, Some(7))
     }
 }
 
@@ -195,6 +203,17 @@ pub fn collect(tier: &str, caps: &Caps, rep: &Report) -> Vec<BItem> {
     );
     rep.add_stats("child", &cb.map(|b| format!("dev({})", b)).unwrap_or("full".into()), &st);
     eprintln!("  space child: {} choice vectors, {} pruned", st.leaves, st.pruned);
+    let co = child_deep_opts(tier);
+    let st = explore(
+        |ctx| gen_child(ctx, &co),
+        None,
+        caps,
+        |choices, c| {
+            items.lock().unwrap().push(BItem { space: "child-deep".into(), choices: choices.to_vec(), tags: c.tags.clone(), inputs: vec![c.item("S", true).render()], module: c.render_module(), nontrivial: true });
+        },
+    );
+    rep.add_stats("child-deep", "full", &st);
+    eprintln!("  space child-deep: {} choice vectors, {} pruned", st.leaves, st.pruned);
     let (co, cb) = child_pos_opts(tier);
     let st = explore(
         |ctx| gen_child(ctx, &co),
@@ -232,7 +251,7 @@ pub fn collect(tier: &str, caps: &Caps, rep: &Report) -> Vec<BItem> {
 
 pub fn run(tier: &str) -> i32 {
     let rep = Report::new("C03", tier, "model_checking");
-    rep.set_rule("child direction (named structs, and the positional twin `child-pos` with tuple structs and index paths): every prefix-closed subset of the path universe {p, pq, p.q, p.qr, p.q.r, r} (sibling names that are string prefixes of each other; depth <= 3) x 2-4 flat members assigned to root or any node x leaf instruction {none, rename, ~expr} x 0-2 struct-level ghosts addressed by child path (incl. ghost-only nodes) x EVERY permutation of the flat members; mirror direction: parameterised #[parent(..)] with 1-4 leaves at nesting depth 0-2 ([parent(..)] name: Type), renamed and/or with expression, every permutation, parent member first or last; bare #[parent]: 8 fixed layouts (named/tuple, 1-2 parents, order) whose parent types derive their own conversions. Each case is compiled through the real derive by rustc and executed: all 12 kinds x 2 value assignments; From result, nested Into literal and mutated pre-existing IntoExisting value compared leaf by leaf with the model. A nested struct built twice is a duplicate-field compile error, one split in two loses members. states = distinct test modules");
+    rep.set_rule("child direction (named structs, and the positional twin `child-pos` with tuple structs and index paths): every prefix-closed subset of the path universe {p, pq, p.q, p.qr, p.q.r, r} (sibling names that are string prefixes of each other; depth <= 3) x 2-4 flat members assigned to root or any node x leaf instruction {none, rename, ~expr} x 0-2 struct-level ghosts addressed by child path (incl. ghost-only nodes) x EVERY permutation of the flat members; `child-deep`: the fixed node set {p, p.q, p.qr, p.q.r} x every assignment of 2-3 (thorough 2-4) plain members to the five structs in every order, exhaustively; mirror direction: parameterised #[parent(..)] with 1-4 leaves at nesting depth 0-2 ([parent(..)] name: Type), renamed and/or with expression, every permutation, parent member first or last; bare #[parent]: 8 fixed layouts (named/tuple, 1-2 parents, order) whose parent types derive their own conversions. Each case is compiled through the real derive by rustc and executed: all 12 kinds x 2 value assignments; From result, nested Into literal and mutated pre-existing IntoExisting value compared leaf by leaf with the model. A nested struct built twice is a duplicate-field compile error, one split in two loses members. states = distinct test modules");
     rep.assume("leaves are i32; a case is either named all the way down or positional all the way down (space child-pos: tuple structs, index paths written `1 .0`, designated positions = members, nested structs, ghosts); exploration is deviation-bounded (bound in `spaces`)");
     let caps = Caps::from_env(if tier == "quick" { 200.0 } else { 1500.0 });
     let items = collect(tier, &caps, &rep);
@@ -247,10 +266,10 @@ pub fn replay(f: &Failure) -> i32 {
     let mut obs = vec![];
     for round in 0..2 {
         let item = match f.space.as_str() {
-            "child" | "child-pos" => {
+            "child" | "child-pos" | "child-deep" => {
                 let mut found = None;
                 for t in ["quick", "thorough"] {
-                    let (o, _) = if f.space == "child" { child_opts(t) } else { child_pos_opts(t) };
+                    let (o, _) = if f.space == "child" { child_opts(t) } else if f.space == "child-deep" { (child_deep_opts(t), None) } else { child_pos_opts(t) };
                     let (c, full) = replay_one(|ctx| gen_child(ctx, &o), &f.choices);
                     if let Some(c) = c {
                         if full == f.choices && c.item("S", true).render() == f.input {
